@@ -42,7 +42,7 @@ package server
 // What no part of first-packet processing may touch: bytes already held in buffers (the consumed
 // prefix is replayed to the redirect target afterwards), the peer-facing state of every connection,
 // and the server configuration.
-//@ define KEEP heap(E_Int), heap(G_out), heap(G_outlen), heap(G_outwrites), heap(G_inpos), heap(G_closedconn), heap(G_rdeadline), heap(GU_replies), State.Panel, State.AdminUID, State.ProxyBook, State.BypassUID, State.StaticPv, State.RedirDialer, State.RedirHost, State.RedirPort, State.WorldState, heap(B_Slice), heap(MD_Str_Iface), heap(MV_Str_Iface), userPanel.Manager
+//@ define KEEP heap(E_Int), heap(G_out), heap(G_outlen), heap(G_outwrites), heap(G_inpos), heap(G_closedconn), heap(G_rdeadline), heap(GU_replies), State.Panel, State.AdminUID, State.ProxyBook, State.BypassUID, State.StaticPv, State.RedirDialer, State.RedirHost, State.RedirPort, State.WorldState, heap(B_Slice), heap(MD_Str_Iface), heap(MV_Str_Iface), userPanel.Manager, ActiveUser.panel
 //@ func (Transport).processFirstPacket
 //@   flag trusted
 //@   requires pvOK(privateKey)
@@ -131,6 +131,9 @@ package server
 //@ func (*State).IsBypass
 //@   requires sta != nil
 
+//@ ghost func silent(conn net.Conn) bool { return outlen(conn) == old(outlen(conn)) && outwrites(conn) == old(outwrites(conn)) }
+//@ ghost func noReply(conn net.Conn) bool { return ghostget("replies", conn) == old(ghostget("replies", conn)) }
+//@ import "net"
 //@ ghost func adminGate(sta *State, ci ClientInfo) bool { return len(sta.AdminUID) != 0 && bytesEq(ci.UID, sta.AdminUID) && ci.SessionId == 0 }
 //@ func dispatchConnection
 //@   requires conn != nil && sta != nil && sta.Panel != nil && sta.Panel.Manager != nil && sta.RedirDialer != nil && sta.RedirHost != nil && pvOK(sta.StaticPv) && holdsNone()
@@ -138,7 +141,15 @@ package server
 //@   # gate, or names a served proxy method and a UID the user panel accepts
 //@   atcall Responder requires authorised: succeeded("AuthFirstPacket") && (adminGate(sta, ci) || (mapHas(sta.ProxyBook, ci.ProxyMethod) && (succeeded("(*userPanel).GetUser") || succeeded("(*userPanel).GetBypassUser"))))
 //@   # C09: unless such a reply was produced, the server itself has written nothing to the peer
-//@   ensures neverSpeaksFirst: ghostget("replies", conn) == old(ghostget("replies", conn)) ==> outlen(conn) == old(outlen(conn)) && outwrites(conn) == old(outwrites(conn))
+//@   # (stated per way of leaving the function - the solvers do not combine the cases on their own -
+//@   # together with the clause that the cases are exhaustive)
+//@   ensures silentUnauthenticated: !succeeded("AuthFirstPacket") ==> silent(conn)
+//@   ensures silentBadMethodByte: succeeded("AuthFirstPacket") && !succeeded("MakeObfuscator") ==> silent(conn)
+//@   ensures silentBadProxy: succeeded("MakeObfuscator") && !called("MakeSession") && !called("(*userPanel).GetUser") && !called("(*userPanel).GetBypassUser") ==> silent(conn)
+//@   ensures silentAdminPath: called("MakeSession") && !called("(*ActiveUser).GetSession") && noReply(conn) ==> silent(conn)
+//@   ensures silentUnauthorised: (called("(*userPanel).GetUser") || called("(*userPanel).GetBypassUser")) && !succeeded("(*userPanel).GetUser") && !succeeded("(*userPanel).GetBypassUser") ==> silent(conn)
+//@   ensures silentRefusedSession: (succeeded("(*userPanel).GetUser") || succeeded("(*userPanel).GetBypassUser")) && noReply(conn) ==> silent(conn)
+//@   ensures casesExhaustive: !succeeded("AuthFirstPacket") || !succeeded("MakeObfuscator") || (!called("MakeSession") && !called("(*userPanel).GetUser") && !called("(*userPanel).GetBypassUser")) || (called("MakeSession") && !called("(*ActiveUser).GetSession")) || ((called("(*userPanel).GetUser") || called("(*userPanel).GetBypassUser")) && !succeeded("(*userPanel).GetUser") && !succeeded("(*userPanel).GetBypassUser")) || succeeded("(*userPanel).GetUser") || succeeded("(*userPanel).GetBypassUser")
 //@   # C07/C09: a first packet that was read but fails authentication, names an unserved proxy method
 //@   # or an unauthorised UID is handed to the redirect target
 //@   ensures rejectedAreRedirected: succeeded("readFirstPacket") && !(succeeded("(*userPanel).GetUser") || succeeded("(*userPanel).GetBypassUser")) && ghostget("replies", conn) == old(ghostget("replies", conn)) ==> called("(Dialer).Dial")
@@ -160,7 +171,7 @@ package server
 //@ guardedby userPanel.activeUsersM: mapof(userPanel.activeUsers)
 //@ guardedby userPanel.usageUpdateQueueM: mapof(userPanel.usageUpdateQueue), userPanel.usageUpdateQueue
 //@ lockinv ActiveUser.sessionsM: sessionsOK: self.sessions != nil && (forall k uint32 :: mapHas(self.sessions, k) ==> self.sessions[k] != nil)
-//@ lockinv userPanel.activeUsersM: usersOK: self.activeUsers != nil && (forall k [16]byte :: mapHas(self.activeUsers, k) ==> self.activeUsers[k] != nil)
+//@ lockinv userPanel.activeUsersM: usersOK: self.activeUsers != nil && (forall k [16]byte :: mapHas(self.activeUsers, k) ==> self.activeUsers[k] != nil && self.activeUsers[k].panel == self)
 //@ lockinv userPanel.usageUpdateQueueM: queueOK: self.usageUpdateQueue != nil
 
 //@ func (github.com/cbeuw/Cloak/internal/server/usermanager.UserManager).AuthoriseNewSession
@@ -224,7 +235,7 @@ package server
 //@   ensures ret0 != nil && fresh(ret0)
 //@ func (*userPanel).GetUser
 //@   requires panel != nil && panel.Manager != nil && holdsNone()
-//@   ensures userOnSuccess: ret1 == nil ==> ret0 != nil
+//@   ensures userOnSuccess: ret1 == nil ==> ret0 != nil && ret0.panel == panel
 //@   ensures neverReplaces: forall k [16]byte :: acq(mapHas(panel.activeUsers, k)) ==> mapHas(panel.activeUsers, k) && panel.activeUsers[k] == acq(panel.activeUsers[k])
 //@   ensures refusedChangesNothing: ret1 != nil ==> ret0 == nil && (forall k [16]byte :: mapHas(panel.activeUsers, k) == acq(mapHas(panel.activeUsers, k)))
 //@   ensures locks: holdsNone()
@@ -232,7 +243,7 @@ package server
 //@   preserves $KEEP
 //@ func (*userPanel).GetBypassUser
 //@   requires panel != nil && holdsNone()
-//@   ensures userOnSuccess: ret1 == nil ==> ret0 != nil
+//@   ensures userOnSuccess: ret1 == nil ==> ret0 != nil && ret0.panel == panel
 //@   ensures neverReplaces: forall k [16]byte :: acq(mapHas(panel.activeUsers, k)) ==> mapHas(panel.activeUsers, k) && panel.activeUsers[k] == acq(panel.activeUsers[k])
 //@   ensures locks: holdsNone()
 //@   modifies *
